@@ -2,9 +2,11 @@ package drivers
 
 import (
 	"context"
+	"errors"
 	"fmt"
 	"os"
 	"sync"
+	"sync/atomic"
 	"testing"
 	"testing/synctest"
 	"time"
@@ -234,6 +236,79 @@ func TestC12Close(t *testing.T) {
 				"stuck", stuck, "leaked", len(leaked), "names", names)
 			ts.add("abort", rec.Events(), desc, true, map[string]any{"leaked": len(leaked)})
 		}
+	}
+	// A connection attempt whose handshake fails on its own (the transport
+	// refuses the re-sent SYN / the reply to a second SYN) while the caller's
+	// context stays alive: the constructor returns the error and nothing of
+	// the attempt stays behind - in particular not the reader blocked in the
+	// transport's receive call.
+	for _, role := range []string{"c", "s"} {
+		desc := map[string]any{"scenario": "failHandshake", "who": role, "net": "send fails on the second packet"}
+		noteCurrent(dir, desc)
+		rec := trace.New()
+		ctx, cancel := context.WithCancel(context.Background())
+		in := make(chan []byte, 4)
+		if role == "s" {
+			// a client's SYN now, the same again while the server waits for
+			// the SYNACK after its handshake timeout
+			in <- []byte{gbn.SYN, 2}
+			go func() {
+				time.Sleep(300 * time.Millisecond)
+				in <- []byte{gbn.SYN, 2}
+			}()
+		}
+		recv := func(c context.Context) ([]byte, error) {
+			select {
+			case b := <-in:
+				return b, nil
+			case <-c.Done():
+				return nil, c.Err()
+			}
+		}
+		var sends atomic.Int32
+		send := func(c context.Context, b []byte) error {
+			if sends.Add(1) >= 2 {
+				return errors.New("transport: send failed")
+			}
+			return nil
+		}
+		done := make(chan error, 1)
+		t0 := time.Now()
+		go func() {
+			var err error
+			var conn *gbn.GoBackNConn
+			opt := gbn.WithTimeoutOptions(gbn.WithHandshakeTimeout(200 * time.Millisecond))
+			if role == "c" {
+				conn, err = gbn.NewClientConn(ctx, 2, send, recv, opt)
+			} else {
+				conn, err = gbn.NewServerConn(ctx, send, recv, opt)
+			}
+			if err == nil && conn != nil {
+				conn.Close()
+			}
+			done <- err
+		}()
+		stuck, ret, es := 0, 0, ""
+		select {
+		case err := <-done:
+			ret = int(time.Since(t0) / time.Millisecond)
+			if err != nil {
+				es = err.Error()
+			}
+		case <-time.After(10 * time.Second):
+			stuck = 1
+		}
+		time.Sleep(1500 * time.Millisecond)
+		leaked := gbnrun.Goroutines("lightning-node-connect/gbn")
+		names := []string{}
+		for _, g := range leaked {
+			names = append(names, gbnrun.LeakName(g))
+		}
+		rec.Emit("abortInventory", "role", role, "atMs", 0, "err", es, "retMs", ret,
+			"stuck", stuck, "leaked", len(leaked), "names", names)
+		ts.add("abort", rec.Events(), desc, true, map[string]any{"leaked": len(leaked)})
+		cancel()
+		time.Sleep(100 * time.Millisecond)
 	}
 	ts.close(nil)
 	_ = fmt.Sprint
